@@ -125,6 +125,9 @@ class Canon:
             if name == 'from_bits' and len(args) == 1:
                 a = self.canon(args[0])
                 return ('from_bits', a)
+            if last == 'from_le_bytes' and len(args) == 1 and 'u128' in t[1]:
+                # u128::from_le_bytes(bytes) is the little-endian assembly of the 16 bytes
+                return ('le_u128', self.canon(args[0]))
             return ('call', name, tuple(self.canon(a) for a in args))
         if k == 'cast':
             inner = self.canon(t[1])
